@@ -621,6 +621,7 @@ func checkProperty(prop, tier string, seed uint64, runs, budget, workers int, re
 	per := (runs + workers - 1) / workers
 	crashed := []string{}
 	var hung []uint64
+	hungHist := map[uint64][]uint64{} // per run that exceeded the liveness bound: the runs its worker process had executed before
 	var fatals []fatalRun
 	hangLimit := time.Duration(hangSeconds()) * time.Second
 	if in.Hang > hangSeconds() && os.Getenv("VERIF_HANG_SECONDS") == "" {
@@ -728,6 +729,9 @@ func checkProperty(prop, tier string, seed uint64, runs, budget, workers int, re
 		b := begun
 		wmu.Unlock()
 		if k >= 0 {
+			mu.Lock()
+			hungHist[uint64(k)] = append([]uint64{}, hist...)
+			mu.Unlock()
 			return k
 		}
 		if err != nil {
@@ -873,7 +877,29 @@ func checkProperty(prop, tier string, seed uint64, runs, budget, workers int, re
 		v := sim.Violation{Prop: prop, Clause: "hang", Sig: "liveness-bound-exceeded", Detail: fmt.Sprintf("run %d did not finish within %v", h, hangLimit)}
 		p := writeReplay(prop, seed, h, caseJSON, v)
 		if !replayHangs(bi, in, p, tmp, hangLimit) {
-			fmt.Fprintf(os.Stderr, "check: run %d exceeded the liveness bound once but finished when run alone (loaded machine): not reported\n", h)
+			// not alone - but after what earlier cases left behind in the process? (shortest suffix of the worker's history, as for crashes)
+			var with []uint64
+			if hh := hungHist[h]; len(hh) > 0 && livenessProps[prop] {
+				for n := 4; with == nil; n *= 4 {
+					cand := hh
+					if n < len(hh) {
+						cand = hh[len(hh)-n:]
+					}
+					if replayHangs(bi, in, writeReplayHist(prop, seed, h, caseJSON, v, cand, tier), tmp, hangLimit*time.Duration(1+len(cand)/50)) {
+						with = cand
+					}
+					if n >= len(hh) {
+						break
+					}
+				}
+			}
+			if with == nil {
+				fmt.Fprintf(os.Stderr, "check: run %d exceeded the liveness bound once but finished when run alone (loaded machine): not reported\n", h)
+				continue
+			}
+			fmt.Fprintf(os.Stderr, "check: run %d does not terminate after %d earlier case(s) in the same process; the replay file lists them (process_history)\n", h, len(with))
+			founds = append(founds, found{Run: h, Case: caseJSON, V: v, Hist: with, Tier: tier})
+			hangsConfirmed++
 			continue
 		}
 		if !livenessProps[prop] {
@@ -1233,7 +1259,7 @@ func replayHangs(bi *buildInfo, in *info, file, tmp string, limit time.Duration)
 // result in a fresh process and returns the replay file.
 func minimiseAndReplay(bi *buildInfo, in *info, prop string, seed uint64, f found, tmp string) (string, bool) {
 	orig := writeReplay(prop, seed, f.Run, f.Case, f.V)
-	if f.V.Clause == "process-crash" && len(f.Hist) > 0 {
+	if (f.V.Clause == "process-crash" || f.V.Clause == "hang") && len(f.Hist) > 0 {
 		return writeReplayHist(prop, seed, f.Run, f.Case, f.V, f.Hist, f.Tier), true // confirmed with this history by crashHistory
 	}
 	if f.V.Clause == "hang" || f.V.Clause == "process-crash" {
